@@ -194,76 +194,110 @@ def execute(case, tmpdir):
     else:
         target = sink = open(path, 'wb')
     dump_state = ['open']
-    piped = rx.from_(rows).pipe(
+    first_pass = [bool(case.get('retry'))]
+
+    def source(_scheduler=None):
+        # case['retry']: the first subscription meets a malformed row (a missing field) and
+        # fails; the same piped observable is then subscribed again and gets the good rows
+        if first_pass[0] and rows:
+            first_pass[0] = False
+            k = min(len(rows) - 1, 2)
+            bad = dict(rows[k])
+            bad.pop('id')
+            return rx.from_(rows[:k] + [bad] + rows[k + 1:])
+        return rx.from_(rows)
+    piped = rx.defer(source).pipe(
         P.dump_to_file(target, schema, batch_size=b, row_group_size=rgs,
                        compression=None if comp == 'none-as-None' else comp))
-    if case.get('resub') and mode == 'path':
+    if case.get('retry') and mode == 'path' and rows:
+        try:
+            piped.subscribe(on_next=lambda i: None, on_error=lambda e: None)
+        except Exception:
+            pass
+    elif case.get('resub') and mode == 'path':
         # the same built pipeline subscribed a second time (re-export): the file written by
         # the second subscription is the one that is judged
         try:
             piped.subscribe(on_next=lambda i: None, on_error=lambda e: None)
         except Exception:
             pass
-    with _Observe() as obs:
-        try:
-            piped.subscribe(on_next=lambda i: None,
-                        on_error=lambda e: dump_state.__setitem__(0, 'error:' + type(e).__name__),
-                        on_completed=lambda: dump_state.__setitem__(0, 'completed'))
-        except Exception as e:
-            dump_state[0] = 'raised:' + type(e).__name__
-    if dump_state[0] != 'completed':
-        ended.append('dump-' + dump_state[0])
-    data = None
-    if mode == 'bytesio':
-        try:
-            data = sink.getvalue()
-        except Exception as e:          # the sink must stay usable: the caller owns it
-            ended.append('sink-closed:' + type(e).__name__)
-            data = b''
-    elif mode == 'fileobj':
-        try:
-            sink.close()
-        except Exception as e:
-            ended.append('sink-close:' + type(e).__name__)
+    first_pass[0] = False
+    data_box = [None]
+    res = {'file_ids': [], 'rg_meta': [], 'loaded': [], 'load_state': ['open']}
 
     def src():
         if mode == 'path':
             return path
         if mode == 'bytesio':
-            return io.BytesIO(data)
+            return io.BytesIO(data_box[0])
         return open(path, 'rb')
 
-    file_ids, rg_meta = [], []
-    s = None
-    try:
-        s = src()
-        table = pq.read_table(s)
-        file_ids = ident_seq(table.to_pylist(), rows, kind)
-        if mode == 'fileobj':
-            s.close()
-        s = src()
-        md = pq.ParquetFile(s).metadata
-        rg_meta = [md.row_group(i).num_rows for i in range(md.num_row_groups)]
-    except Exception as e:
-        ended.append('unreadable:' + type(e).__name__)
-    finally:
-        if mode == 'fileobj' and s is not None:
-            s.close()
+    def readback():
+        s = None
+        try:
+            s = src()
+            table = pq.read_table(s)
+            res['file_ids'] = ident_seq(table.to_pylist(), rows, kind)
+            if mode == 'fileobj':
+                s.close()
+            s = src()
+            md = pq.ParquetFile(s).metadata
+            res['rg_meta'] = [md.row_group(i).num_rows for i in range(md.num_row_groups)]
+        except Exception as e:
+            ended.append('unreadable:' + type(e).__name__)
+        finally:
+            if mode == 'fileobj' and s is not None:
+                s.close()
+        load_state = res['load_state']     # (under a running trampoline the load is deferred)
+        s = None
+        try:
+            s = src()
+            P.load_from_file(s, batch_size=m).subscribe(
+                on_next=res['loaded'].append,
+                on_error=lambda e: load_state.__setitem__(0, 'error:' + type(e).__name__),
+                on_completed=lambda: load_state.__setitem__(0, 'completed'))
+        except Exception as e:
+            load_state[0] = 'raised:' + type(e).__name__
+        finally:
+            if mode == 'fileobj' and s is not None:
+                s.close()
 
-    loaded = []
-    load_state = ['open']
-    s = None
-    try:
-        s = src()
-        P.load_from_file(s, batch_size=m).subscribe(
-            on_next=loaded.append,
-            on_error=lambda e: load_state.__setitem__(0, 'error:' + type(e).__name__),
-            on_completed=lambda: load_state.__setitem__(0, 'completed'))
-    except Exception as e:
-        load_state[0] = 'raised:' + type(e).__name__
-    finally:
-        if mode == 'fileobj' and s is not None:
-            s.close()
+    at_completion = bool(case.get('at_completion')) and mode in ('path', 'bytesio')
+
+    def dump_completed():
+        dump_state[0] = 'completed'
+        if at_completion:
+            # the file is read back the moment the dump reports its completion
+            if mode == 'bytesio':
+                try:
+                    data_box[0] = sink.getvalue()
+                except Exception as e:
+                    ended.append('sink-closed:' + type(e).__name__)
+                    data_box[0] = b''
+            readback()
+    with _Observe() as obs:
+        try:
+            piped.subscribe(on_next=lambda i: None,
+                        on_error=lambda e: dump_state.__setitem__(0, 'error:' + type(e).__name__),
+                        on_completed=dump_completed)
+        except Exception as e:
+            dump_state[0] = 'raised:' + type(e).__name__
+    if dump_state[0] != 'completed':
+        ended.append('dump-' + dump_state[0])
+    if mode == 'bytesio' and not at_completion:
+        try:
+            data_box[0] = sink.getvalue()
+        except Exception as e:          # the sink must stay usable: the caller owns it
+            ended.append('sink-closed:' + type(e).__name__)
+            data_box[0] = b''
+    elif mode == 'fileobj':
+        try:
+            sink.close()
+        except Exception as e:
+            ended.append('sink-close:' + type(e).__name__)
+    if not (at_completion and dump_state[0] == 'completed'):
+        readback()
+    file_ids, rg_meta, loaded, load_state = res['file_ids'], res['rg_meta'], res['loaded'], res['load_state']
     if load_state[0] != 'completed':
         ended.append('load-' + load_state[0])
     loaded_ids = ident_seq(loaded, rows, kind)
@@ -281,7 +315,9 @@ def mk_case(N, b, m, comp='snappy', mode='path', rgs=None, schema='ids', rowseed
     _RESUB[0] += 1
     return {'N': N, 'b': b, 'm': m, 'compression': comp, 'mode': mode,
             'row_group_size': rgs, 'schema': schema, 'rowseed': rowseed, 'origin': origin,
-            'resub': mode == 'path' and _RESUB[0] % 3 == 0}
+            'resub': mode == 'path' and _RESUB[0] % 3 == 0,
+            'retry': mode == 'path' and _RESUB[0] % 5 == 1 and schema in ('ids', 'flat') and N > 0,
+            'at_completion': _RESUB[0] % 4 == 2}
 
 
 def to_tlc(tr):
